@@ -76,9 +76,11 @@ func (g *gateDS) Get(c context.Context, k datastore.Key) ([]byte, error) {
 	}
 	return g.inner.Get(c, k)
 }
-func (g *gateDS) Delete(c context.Context, k datastore.Key) error       { return g.inner.Delete(c, k) }
-func (g *gateDS) Has(c context.Context, k datastore.Key) (bool, error)  { return g.inner.Has(c, k) }
-func (g *gateDS) GetSize(c context.Context, k datastore.Key) (int, error) { return g.inner.GetSize(c, k) }
+func (g *gateDS) Delete(c context.Context, k datastore.Key) error      { return g.inner.Delete(c, k) }
+func (g *gateDS) Has(c context.Context, k datastore.Key) (bool, error) { return g.inner.Has(c, k) }
+func (g *gateDS) GetSize(c context.Context, k datastore.Key) (int, error) {
+	return g.inner.GetSize(c, k)
+}
 func (g *gateDS) Query(c context.Context, q query.Query) (query.Results, error) {
 	return g.inner.Query(c, q)
 }
